@@ -650,7 +650,7 @@ def judge_entry(acc, shape, fam, op, v, i, j, got, got_manual, per_container=Fal
         if exp[0] == "ok":
             if judge(got, exp) is None:
                 acc.invalid_agree += 1
-            else:
+            elif not (huge(i) or huge(j)):      # (huge bounds: the known clipping defect, counted elsewhere)
                 acc.invalid_differ += 1
         exp = loose_invalid(op, v, i, j, exp)
     n = n_units(v)
@@ -850,7 +850,7 @@ def build_tasks(run, defs):
                     if thorough or fam == "obj":
                         P = pairs_all
                     else:
-                        k = run.size(44, 0) if shape == "R2" else run.size(22, 0)
+                        k = run.size(32, 0) if shape == "R2" else run.size(14, 0)
                         P = must + rng.sample(pairs_all, k)
                     tasks.append((shape, fam, ch, P, profile, defs, f"{run.seed}/{tid}"))
         # random larger containers
